@@ -63,6 +63,19 @@ def _make_prim(shape, rng, layers=1, n_index=None):
     from holopy.scattering.scatterer import Sphere, LayeredSphere, Ellipsoid
     scale = float(loguniform(rng, 1e-3, 1e3))
     c = rng.normal(size=3) * scale * 2
+    ints = shape in ("sphere", "ellipsoid") and rng.random() < 0.2
+    if ints:
+        # sizes and positions written as whole numbers (Python ints, integer arrays): the same geometry as the floats
+        scale = 1.0
+        form = int(rng.integers(0, 4))
+        wrap = [lambda v: tuple(int(x) for x in v), lambda v: [int(x) for x in v], lambda v: np.asarray(v, dtype=np.int64), lambda v: np.asarray(v, dtype=np.int32)][form]
+        ci = rng.integers(-4, 5, 3)
+        n = n_index if n_index is not None else 1.2 + float(rng.uniform(0, 1))
+        if shape == "sphere":
+            ri = int(rng.integers(1, 5))
+            return Sphere(n=n, r=[ri, np.int64(ri), np.int32(ri), ri][form], center=wrap(ci)), {"type": "sphere", "c": ci.astype(float), "r": [float(ri)], "n": [n], "scale": scale}
+        ri = rng.integers(1, 6, 3)
+        return Ellipsoid(n=n, r=wrap(ri), center=wrap(ci)), {"type": "ellipsoid", "c": ci.astype(float), "r": ri.astype(float), "n": [n], "scale": scale}
     if shape == "sphere":
         r = float(rng.uniform(0.2, 1.5) * scale)
         n = n_index if n_index is not None else 1.2 + float(rng.uniform(0, 1))
